@@ -9,7 +9,10 @@
 (* random numbers are exact rationals [num, den].                            *)
 (*                                                                           *)
 (*   T = [kind |-> "ar", N, hasB, b0, ev |-> <<e1, e2, ...>>]                *)
-(*       e = [a |-> "Batch", ws, us, acc, hasBin, bin, local, stored]        *)
+(*       e = [a |-> "Batch", as, ims, us, acc, hasBin, bin, local, stored]   *)
+(*           as = amplitudes amp(data), ims = importance_f(data) ([1,1] when  *)
+(*           no importance function is passed); the specification forms the   *)
+(*           effective weights as / ims itself                                *)
 (*         | [a |-> "Thin", us, kept, stored]  (or nkept: number of survivors)*)
 (* The bounds are bound from the log (general actions BatchG / ThinG): the   *)
 (* specification requires of them only what the property needs, so a change  *)
@@ -76,7 +79,7 @@ TrBatch ==
     /\ IsEvent("Batch") /\ Tr.kind = "ar"
     /\ Ev.hasBin = hasB                                  \* the bound the batch was called with
     /\ (hasB => RNorm(Ev.bin) = bound)
-    /\ BatchG(Ev.ws, RSeq(Ev.us), RNorm(Ev.local), RNorm(Ev.stored))   \* logged: bound it was accepted with, bound kept
+    /\ BatchG(Eff(Ev.as, RSeq(Ev.ims)), RSeq(Ev.us), RNorm(Ev.local), RNorm(Ev.stored))   \* logged: bound it was accepted with, bound kept
     /\ Pos(IF pc' = "thin" THEN pend' ELSE SubSeq(evs', Len(evs) + 1, Len(evs'))) = Ev.acc
     /\ Step
 
